@@ -461,8 +461,8 @@ func runJob(r *mc.Run, fs *findings, jb job) {
 			var targets []uint64
 			for k := uint64(0); k < 16; k++ {
 				targets = append(targets, rg.base+k+0x100)    // every alignment, mid RAM
-				targets = append(targets, rg.base+k)           // first bytes
-				targets = append(targets, end-uint64(size)-k)  // last bytes
+				targets = append(targets, rg.base+k)          // first bytes
+				targets = append(targets, end-uint64(size)-k) // last bytes
 			}
 			for j := 1; j <= size; j++ {
 				targets = append(targets, end-uint64(size)+uint64(j)) // crosses the end of the RAM
